@@ -66,16 +66,17 @@ def visible_names(g, p):
     for mods, par in P.inherits():
         sub = visible_names(g, par)
         for fn, (mset, real) in sub.items():
-            if not real:
-                if fn not in info:
-                    info[fn] = (set(mset), False)
-                continue
             f = set(mset)
             if "private" in f:
                 f.add("hidden")
             f |= set(m for m in mods.split("_") if m != "-")
             if "public" in f:
                 f.discard("private")
+            if not real:
+                # an inherited prototype never replaces anything, but it is copied (with its modifiers) when new
+                if fn not in info:
+                    info[fn] = (f, False)
+                continue
             info[fn] = (f, True)
     for it in P.items:
         if it[0] == "d":
